@@ -134,13 +134,15 @@ func CommentState(l *lexer) stateFn {
 		}
 	} else {
 		//start with /*
+		l.next()
+		l.next()
 		for {
 			r := l.next()
-			if r == '*' {
+			for r == '*' {
 				r = l.next()
 				if r == '/' {
 					l.ignore()
-					break
+					return rootState
 				}
 			}
 			if r == eof {
